@@ -24,7 +24,7 @@ def build_case(rng, thorough):
 	"""A network with attributes at node / product / (node, product) level. Returns (kind, spec, builder)."""
 	kind = rng.choice(['single', 'single', 'multi', 'multi-keyed'])
 	if kind == 'single':
-		spec = simlib.gen_spec(rng, thorough)
+		spec = simlib.gen_spec(rng, thorough, {'pcostfn': 0})   # cost FUNCTIONS are callables: documented as neither serialised nor compared
 		randomise = rng.random() < .5
 		rs = rng.randint(0, 10 ** 6)
 		def build_single():
@@ -264,7 +264,7 @@ def parse_header(h):
 def csv_case(rep, rng, thorough, tmpdir):
 	"""Every CSV cell equals the state variable its header names."""
 	from stockpyl import sim_io
-	spec = simlib.gen_spec(rng, thorough)
+	spec = simlib.gen_spec(rng, thorough, {'pcostfn': 0})
 	T = min(spec['T'], 6)
 	suppress = rng.random() < .6
 	case = {'spec': spec, 'suppress_dummy_products': suppress}
